@@ -18,6 +18,7 @@ From Coq Require Import List Bool Arith.
 From KdV Require Import Res.Tokens Res.TokensProofs Res.OomModel Res.OomSpec Res.OomProofs.
 From KdV Require Import Res.ResModel Res.ResProofs.
 From KdV Require Import Res.SysLayout Res.SysLayoutProofs Res.OpenPaths Res.OpenPathsProofs.
+From KdV Require Import Res.Reopen Res.ReopenProofs.
 Import ListNotations.
 
 (** fcache_get (mmap path, read path, policy fallback; repaired): a successful
@@ -216,6 +217,24 @@ Theorem C15_clone_free_balanced : forall slots dc xc specs,
   roundtrip_clean (kdump_clone slots dc xc specs) kdump_free.
 Proof. exact kdump_clone_roundtrip. Qed.
 Print Assumptions C15_clone_free_balanced.
+
+(** opening another file on a context that already has one open (fixes/100):
+    the repaired open_dump gives back everything the first format held - its
+    private data, maps, per-context buffers, the file cache and the flattened
+    map - before it probes the second file.  Any sequence of opens (each probe
+    accepting, declining or failing, any number of blocks per format, any
+    allocation schedule) followed by kdump_free leaves nothing ... *)
+Theorem C15_reopen_releases_first_format : forall opens sch,
+  let '(_, tr, _) := run (session true opens) sch in clean tr.
+Proof. exact session_clean. Qed.
+Print Assumptions C15_reopen_releases_first_format.
+
+(** ... whereas open_dump as pinned (no teardown of the open format) loses the
+    first format's blocks at the second open *)
+Theorem C15_reopen_pinned_refuted :
+  exists opens, let '(_, tr, _) := run (session false opens) [] in ~ balanced tr.
+Proof. exact open_pinned_witness. Qed.
+Print Assumptions C15_reopen_pinned_refuted.
 
 (** non-vacuity: a discontiguous three-page chunk read with the array geometry
     succeeds as a copy and is given back; with a failing third page it fails and
